@@ -305,4 +305,25 @@ impl Stream for SStream {
             _ => Poll::Pending,
         }
     }
+    /// A valid size hint of the kind the script asks for (world::Script::hint), computed from what is left of the script.
+    fn size_hint(&self) -> (usize, Option<usize>) {
+        let c = self.0.c;
+        with(|w| {
+            if c >= w.scripts.len() {
+                return (0, None);
+            }
+            let sc = &w.scripts[c];
+            let cur = w.cursor[c].min(sc.steps.len());
+            let rest = &sc.steps[cur..];
+            let upto = rest.iter().position(|s| s.r == "n" || s.r == "x").unwrap_or(rest.len());
+            let rem = rest[..upto].iter().filter(|s| s.r == "s").count();
+            let ends = sc.tail != "never" || upto < rest.len();
+            match sc.hint {
+                1 => (rem, if ends { Some(rem) } else { None }),
+                2 => (0, if ends { Some(rem + 3) } else { None }),
+                3 => (0, Some(usize::MAX)),
+                _ => (0, None),
+            }
+        })
+    }
 }
